@@ -80,7 +80,21 @@ def _c_mixed(v):
     return "%s@%s" % (ft, v["start"])
 
 
+def _c_id_else_auto_type(v):
+    # the feature's ID when it has one, otherwise the explicit counter base <featuretype>
+    vals = v["attrs"].get("ID")
+    return vals[0] if vals else AUTO + v["featuretype"]
+
+
+def _c_id_else_auto_x(v):
+    # the feature's ID when it has one, otherwise a counter base of its own ("X.chr1")
+    vals = v["attrs"].get("ID")
+    return vals[0] if vals else AUTO + "X." + v["seqid"]
+
+
 CALLABLES = {
+    "id_else_auto_type": _c_id_else_auto_type,
+    "id_else_auto_x": _c_id_else_auto_x,
     "always_none": _c_always_none,
     "name_attr": _c_name_attr,
     "autoincrement_seqid": _c_autoincrement_seqid,
@@ -216,3 +230,46 @@ def derive_all(spec, fmt, recs, deriver=None):
         keys.append(k)
         branches.append(b)
     return {"outcome": "keys", "keys": keys, "branches": branches, "why": "", "deriver": d}
+
+
+def is_auto(branch):
+    """The branch handed out a counter-made key ('<featuretype>_<n>' or 'X_<n>')."""
+    return "fallback" in branch or branch == "callable:autoincrement"
+
+
+def resolve(keys, strategy):
+    """
+    What becomes of features whose keys BY id_spec (in input order, counters never skipping) are `keys`, once equal keys
+    collide and the merge strategy decides (statement of C05).  The line whose key is taken is the later arrival, whether
+    its key came from an attribute or from a counter.
+    -> {"abort": index of the first colliding line under 'error' | None,
+        "stored": {key: line index},            what must be stored, and which input line under each key
+        "loose": [(key, line index)],           'merge' on lines whose other columns differ: filed under a fresh '<key>_n', n not stated
+        "dropped": [line index],                'warning': later arrivals ignored / 'replace': earlier holders overwritten
+        "collisions": [(key, first line, later line)]}
+    raises Silent when a fresh '<key>_n' of create_unique is the key of another feature.
+    """
+    stored, loose, dropped, collisions, count = {}, [], [], [], {}
+    for i, k in enumerate(keys):
+        if k not in stored:
+            stored[k] = i
+            continue
+        collisions.append((k, stored[k], i))
+        if strategy == "error":
+            return {"abort": i, "stored": stored, "loose": loose, "dropped": dropped, "collisions": collisions}
+        if strategy == "warning":
+            dropped.append(i)
+        elif strategy == "replace":
+            dropped.append(stored[k])
+            stored[k] = i
+        elif strategy == "create_unique":
+            count[k] = count.get(k, 0) + 1
+            new = "%s_%d" % (k, count[k])
+            if new in stored or new in keys:
+                raise Silent("fresh '<key>_n' is the key of another feature")
+            stored[new] = i
+        elif strategy == "merge":
+            loose.append((k, i))
+        else:
+            raise ValueError(strategy)
+    return {"abort": None, "stored": stored, "loose": loose, "dropped": dropped, "collisions": collisions}
